@@ -28,6 +28,11 @@ import (
 // modifiers within the stack.
 func NewStack(via string) (outer *fifo.Group, inner *fifo.Group) {
 	outer = fifo.NewGroup()
+	// Every member runs on every message and the errors are collected: a request
+	// flagged by one member is still forwarded by the proxy (with a Warning), so
+	// it must still lose its hop-by-hop headers, be stamped and be checked for
+	// loops.
+	outer.SetAggregateErrors(true)
 
 	hbhm := header.NewHopByHopModifier()
 	outer.AddRequestModifier(hbhm)
